@@ -91,12 +91,19 @@ type GhostVar struct {
 }
 
 type Lemma struct {
+	Formula string // closed SMT formula (set when the lemma is generated)
+	Header  string
 	Name  string
 	Props []string
 	Text  string
 	Expr  ast.Expr
 	File  string
 	Line  int
+}
+
+type GlobalInv struct {
+	Clause *Clause
+	Pkg    *types.Package
 }
 
 type FieldClass struct {
@@ -208,6 +215,12 @@ func (e *Engine) loadContractFile(path string, lib bool, pkg *types.Package) err
 			}
 			lm.Expr = ex
 			e.lemmas = append(e.lemmas, lm)
+		case "globalinv":
+			c, err := mkClause(rest, rl.line)
+			if err != nil {
+				return err
+			}
+			e.globalInvs = append(e.globalInvs, &GlobalInv{Clause: c, Pkg: pkg})
 		case "field":
 			// field pkg.Type.f class(arg)
 			k, cl := splitWord(rest)
@@ -292,6 +305,10 @@ func (e *Engine) loadContractFile(path string, lib bool, pkg *types.Package) err
 					switch {
 					case t == "everything":
 						at.Kind = "everything"
+					case strings.HasPrefix(t, "everything_except "):
+						// everything_except pat1 pat2 ...: every heap variable whose key contains none of the patterns
+						at.Kind = "except"
+						at.Name = strings.TrimSpace(strings.TrimPrefix(t, "everything_except "))
 					case e.ghosts[t] != nil:
 						at.Kind, at.Name = "ghost", t
 					case strings.HasPrefix(t, "heap:"):
